@@ -442,6 +442,13 @@ fn run_hist(case: &Value, base: &Path, serial: u64) -> Value {
                     },
                 }
             }
+            "put_unverified" => {
+                // the kad RecordStore::put of an inbound, NOT validated record (what a peer's PUT reaches)
+                let rec = Record { key: c.keys[ku].clone(), value: c.vals[vu].clone(), publisher: None, expires: None };
+                let store = &mut w.store;
+                let r = w.rt.block_on(async { store.put(rec) });
+                json!({"ok": r.is_ok()})
+            }
             "remove" => {
                 let store = &mut w.store;
                 let k = c.keys[ku].clone();
@@ -703,6 +710,133 @@ fn run_stress(case: &Value, base: &Path, serial: u64) -> Value {
            "bad": bad, "leftover_files": leftovers, "ms": write_ms, "encrypt": rs::encrypt_records_enabled()})
 }
 
+/// NODE mode (no model term): a REAL `SwarmDriver` built by `NetworkBuilder::build_node` over a root
+/// directory (start-up check, seed derivation from the identity, store open -- all the real code), driven
+/// through the real `handle_local_cmd`: `PutLocalRecord`, and the store's completion notifications taken
+/// off the driver's own receiver and handed to the real `AddLocalRecordAsStored` /
+/// `RemoveFailedLocalRecord` arms when the case says so.  A restart drops everything and builds the
+/// node again with the same keypair and root directory.
+fn run_node(case: &Value, base: &Path, serial: u64) -> Value {
+    use ant_networking::verif_hooks::cmd as vcmd;
+    use ant_networking::{NetworkBuilder, SwarmDriver};
+    let root = base.join(format!("node{serial}"));
+    let _ = std::fs::remove_dir_all(&root);
+    std::fs::create_dir_all(&root).unwrap();
+    let kseed: Vec<u8> = hex::decode(case["cfg"]["peer"].as_str().unwrap()).unwrap();
+    let keys: Vec<Key> = case["keys"].as_array().unwrap().iter().map(|k| Key::from(hex::decode(k.as_str().unwrap()).unwrap())).collect();
+    let vals: Vec<Vec<u8>> = case["vals"].as_array().unwrap().iter().map(|k| hex::decode(k.as_str().unwrap()).unwrap()).collect();
+    let kix = |k: &Key| keys.iter().position(|x| x == k).map(|i| i as u64).unwrap_or(NF);
+    let vix = |v: &[u8]| vals.iter().position(|x| x == v).map(|i| i as u64).unwrap_or(NF + 2);
+    struct Node {
+        rt: tokio::runtime::Runtime,
+        driver: SwarmDriver,
+        _network: ant_networking::Network,
+        _events: mpsc::Receiver<NetworkEvent>,
+        inbox: Vec<LocalSwarmCmd>,
+    }
+    let build = |root: &Path, kseed: &[u8]| -> Node {
+        let rt = tokio::runtime::Builder::new_current_thread().event_interval(1).enable_all().build().expect("runtime");
+        let mut sk = [0u8; 32];
+        sk.copy_from_slice(&kseed[..32]);
+        let kp = libp2p::identity::Keypair::ed25519_from_bytes(sk).expect("keypair");
+        let rootp = root.to_path_buf();
+        let (network, events, driver) = rt.block_on(async move {
+            let mut nb = NetworkBuilder::new(kp, true);
+            nb.listen_addr("127.0.0.1:0".parse().unwrap());
+            nb.build_node(rootp).expect("build_node")
+        });
+        Node { rt, driver, _network: network, _events: events, inbox: vec![] }
+    };
+    let pump = |n: &mut Node, yields: usize| {
+        for _ in 0..yields {
+            n.rt.block_on(async { tokio::task::yield_now().await });
+            while let Some(c) = n.driver.verif_try_recv_local_cmd() {
+                n.inbox.push(c);
+            }
+        }
+    };
+    let code = |c: &LocalSwarmCmd| match c {
+        LocalSwarmCmd::AddLocalRecordAsStored { key, .. } => json!([0, kix(key)]),
+        LocalSwarmCmd::RemoveFailedLocalRecord { key } => json!([NF, kix(key)]),
+        _ => json!([NF + 1, NF]),
+    };
+    let handle = |n: &mut Node, c: LocalSwarmCmd| -> bool {
+        let d = &mut n.driver;
+        n.rt.block_on(async { vcmd::handle_local_cmd(d, c).is_ok() })
+    };
+    let observe = |n: &mut Node| -> Value {
+        let mut listed: Vec<u64> = n.driver.verif_record_addresses().iter().map(|(a, _)| kix(&a.to_record_key())).collect();
+        listed.sort();
+        let gets: Vec<u64> = keys.iter().map(|k| match n.driver.verif_get_local_record(k) {
+            Some(r) => if r.key != *k { NF + 1 } else { vix(&r.value) },
+            None => NF,
+        }).collect();
+        let files = list_dir(&root.join("record_store")).len() as u64;
+        json!({"listed": listed, "gets": gets, "inbox": n.inbox.iter().map(&code).collect::<Vec<_>>(), "files": files})
+    };
+    let mut n = build(&root, &kseed);
+    let mut steps = vec![];
+    for o in case["ops"].as_array().unwrap() {
+        let ku = o.get("k").and_then(|x| x.as_u64()).unwrap_or(0) as usize;
+        let vu = o.get("v").and_then(|x| x.as_u64()).unwrap_or(0) as usize;
+        let out = match o["op"].as_str().unwrap() {
+            "put_local" => {
+                let rec = Record { key: keys[ku].clone(), value: vals[vu].clone(), publisher: None, expires: None };
+                json!({"ok": handle(&mut n, LocalSwarmCmd::PutLocalRecord { record: rec })})
+            }
+            "step" => {
+                pump(&mut n, o.get("n").and_then(|x| x.as_u64()).unwrap_or(1) as usize);
+                json!(null)
+            }
+            "deliver" => {
+                let j = o["j"].as_u64().unwrap() as usize;
+                if !n.inbox.is_empty() {
+                    let c = n.inbox.remove(j % n.inbox.len());
+                    let what = code(&c);
+                    json!({"delivered": what, "ok": handle(&mut n, c)})
+                } else {
+                    json!({"delivered": null})
+                }
+            }
+            "settle" => {
+                // run background tasks and hand every notification to the real arm until nothing moves any more
+                let mut idle = 0;
+                let mut guard = 0;
+                while idle < 40 && guard < 100_000 {
+                    guard += 1;
+                    pump(&mut n, 1);
+                    if n.inbox.is_empty() {
+                        idle += 1;
+                    } else {
+                        idle = 0;
+                        let c = n.inbox.remove(0);
+                        let _ = handle(&mut n, c);
+                    }
+                }
+                json!(null)
+            }
+            "get" => json!({"get": match n.driver.verif_get_local_record(&keys[ku]) { Some(r) => vix(&r.value), None => NF }}),
+            "restart" => {
+                let Node { rt, driver, _network, _events, inbox } = n;
+                drop(driver);
+                drop(_network);
+                drop(_events);
+                drop(inbox);
+                drop(rt);
+                n = build(&root, &kseed);
+                json!(null)
+            }
+            other => json!({"error": format!("unknown op {other}")}),
+        };
+        let obs = observe(&mut n);
+        steps.push(json!({"out": out, "obs": obs}));
+    }
+    let res = json!({"steps": steps, "encrypt": rs::encrypt_records_enabled()});
+    drop(n);
+    let _ = std::fs::remove_dir_all(&root);
+    res
+}
+
 fn run(case: &Value, base: &Path, serial: u64) -> Value {
     match case["kind"].as_str().unwrap_or("hist") {
         "hist" => run_hist(case, base, serial),
@@ -718,6 +852,7 @@ fn run(case: &Value, base: &Path, serial: u64) -> Value {
             }
         }
         "stress" => run_stress(case, base, serial),
+        "node" => run_node(case, base, serial),
         "startup" => {
             // the real check_and_wipe_storage_dir_if_necessary on a prepared directory
             let root = base.join(format!("startup{serial}"));
